@@ -12,6 +12,7 @@ each other at a vertex or along part of an edge.
 Public API
   gen_rectilinear_case(rng, k=None, flip=None)        -> (S, C, kind)
   gen_rectilinear_case_info(rng, k=None, flip=None)   -> (S, C, kind, info)    info: sub, depth, k, flip, transposed
+  gen_lattice_case(rng)                               -> (S, C, kind)   overlapping rectangles on a small lattice
   gen_nested_genpos_case(rng, max_depth=8, box=400)   -> (S, C, kind)
   gen_nested_genpos_case_info(rng, max_depth, box)    -> (S, C, kind, info)    info: sub, depth, tries
   UPSTREAM                                            inline inputs of /repo/CPP/Tests/TestPolytree*.cpp
@@ -1082,6 +1083,22 @@ def gen_nested_genpos_case_info(rng, max_depth=8, box=400):
             return S, C, kind, info
     S, C, kind = FALLBACK_GENPOS
     return [list(p) for p in S], [list(p) for p in C], kind, dict(sub='fallback', depth=2, tries=100)
+
+
+def gen_lattice_case(rng):
+    """(S, C, kind): 2-6 subject and 0-4 clip rectangles (a quarter of them reversed) whose corners lie on a lattice of
+    4..8 lines of spacing 2 per axis: many coincident, collinear-overlapping and touching edges; holes and islands arise
+    from the arrangement (and from reversed rectangles under NonZero/Positive/Negative)."""
+    n = rng.range(4, 8)
+
+    def rr():
+        x0 = rng.below(n - 1); x1 = rng.range(x0 + 1, n - 1)
+        y0 = rng.below(n - 1); y1 = rng.range(y0 + 1, n - 1)
+        r = R(2 * x0, 2 * y0, 2 * x1, 2 * y1)
+        return r if rng.chance(3, 4) else list(reversed(r))
+    S = [rr() for _ in range(rng.range(2, 6))]
+    C = [rr() for _ in range(rng.below(5))]
+    return S, C, 'lattice%d' % n
 
 
 def gen_nested_genpos_case(rng, max_depth=8, box=400):
